@@ -12,4 +12,8 @@ def classify(name, prog, res):
 
 
 def run(ctx):
-    return mp.generic_run(ctx, {"interfaceb": mp.on_case("interfaceb"), "must-reject": mp.on_prog_outcome("c10_must_reject")}, classify, after_failed=True, text_variants=True)
+    return mp.generic_run(ctx, {"interfaceb": mp.on_case("interfaceb"), "must-reject": mp.on_prog_outcome("c10_must_reject")}, classify, after_failed=True, text_variants=True,
+                          rejected_valid=lambda prog, res: (
+                              "C10/rejected:" + str(res.get("exc")),
+                              f"a program that declares no two inputs under one name and outputs only Nada values is rejected ({res.get('exc')}: {str(res.get('msg'))[:120]}) "
+                              "instead of being compiled with its inputs, outputs and parties (the trace / compile model compiles it)"))
